@@ -3,6 +3,8 @@ CONSTANTS
   Classes <- Classes4
   Outs <- OutsC12
   Durs = {2}
+  CDurs <- ZeroDur
+  EDurs <- ZeroDur
   Rets <- RetsOne
   Advs <- AdvsExact
   Decs <- DecsAll
